@@ -340,6 +340,15 @@ pub fn run(cx: &mut Ctx) {
         let acc = Accumulator::<S>::new(Msm::new(&[pts[a].1, pts[b].1], &[scs[c].1, scs[d].1], &BTreeMap::new()), Msm::new(&[], &[], &BTreeMap::new()));
         accs.push((format!("shape2/{}-{}-{}-{}", pts[a].0, pts[b].0, scs[c].0, scs[d].0), acc, 2, 0, vec![], vec![]));
     }
+    // shape 3: fixed-base names handed to `assign` in an order that is not the lexicographic one
+    // (as `fixed_base_names` produces from 11 commitments on: "…_com_10" < "…_com_2"), with
+    // pairwise distinct scalars
+    {
+        let unsorted: Vec<String> = vec!["v_perm_com_0".into(), "v_fixed_com_2".into(), "-G".into(), "v_fixed_com_10".into()];
+        let m: BTreeMap<String, F> = unsorted.iter().cloned().zip([scs[1].1, scs[2].1, scs[3].1, scs[1].1 + scs[2].1]).collect();
+        let acc = Accumulator::<S>::new(Msm::new(&[pts[1].1], &[scs[2].1], &BTreeMap::new()), Msm::new(&[pts[2].1], &[scs[3].1], &m));
+        accs.push(("shape3/unsorted-names".to_string(), acc, 1, 1, vec![], unsorted));
+    }
     for (name, acc, ll, rl, ln, rn) in &accs {
         for committed_scalars in [false, true] {
             cases.push((
